@@ -432,7 +432,8 @@ def c13(run):
 
 def c14(run):
     run.cov["rule"] = ("single-bit flips of real files (document chunk, compressed or not, followed by incremental change "
-                       "chunks): quick = all bits of the first 32 bytes + a seeded sample of 2000 bits per file, thorough = "
+                       "chunks), of the whole history as one bundle chunk, and of the file followed by a DEFLATE-compressed "
+                       "change chunk (Change::bytes() of a 300-character change): quick = all bits of the first 32 bytes + a seeded sample of 2000 bits per file, thorough = "
                        "every bit; a flip must make strict load fail; outcomes ok-same / ok-different / panic are violations; "
                        "non-trivial = distinct (file, bit) pairs")
     t2 = os.path.join(run.work, "flip.ndjson")
@@ -687,6 +688,8 @@ def c08(run):
                        "non-empty diff")
     interp_trace(run, ["C08"], "conflictdiff", sizes(run, 80, 2000), has_diff_pair, spec="Trace_View.tla")
     interp_trace(run, ["C08"], "diff", sizes(run, 80, 2000), has_diff_pair, spec="Trace_View.tla")
+    # long histories (up to 40 changes: head sets far apart, the change graph's clock cache in use)
+    interp_trace(run, ["C08"], "difflong", sizes(run, 8, 200), has_diff_pair, spec="Trace_View.tla")
 
 
 def has_remote_patches(sc):
